@@ -125,6 +125,30 @@ def compile_matrix(compilers, standards, combos=None, jobs=None):
     return ok, fails, len(jobs_list)
 
 
+
+def api_complete(thorough=False):
+    """corpus/api/api_complete.cpp instantiates, links and runs every public member once; returns list of failures"""
+    src = open(os.path.join(C.VERIF, "corpus", "api", "api_complete.cpp")).read()
+    kinds = [("Ctx&", "ctx"), ("Ctx", "ctx"), ("Ctx*", "&ctx")]
+    tools = [("g++", "c++11"), ("clang++-14", "c++20")] + ([("g++", "c++20"), ("clang++-14", "c++11"), ("g++", "c++17")] if thorough else [])
+    jobs = [(k, t) for k in kinds for t in tools]
+
+    def one(job):
+        (ctxt, ctxarg), (cxx, std) = job
+        exe, log = C.build_harness("api_complete", src, ["-std=" + std, "-w", "-DCTXT=" + ctxt, "-DCTXARG=" + ctxarg], cxx=cxx)
+        what = "%s -std=%s context %s" % (cxx, std, ctxt)
+        if exe is None:
+            errs = [l.strip()[:300] for l in log.split("\n") if "error" in l or "undefined reference" in l][:4]
+            return {"what": "a public member of the API cannot be instantiated or linked (corpus/api/api_complete.cpp, %s)" % what, "errors": errs,
+                    "replay_cmd": "%s -std=%s '-DCTXT=%s' '-DCTXARG=%s' -I/repo/include /verif/corpus/api/api_complete.cpp" % (cxx, std, ctxt, ctxarg)}
+        rc, out = C.run([exe], timeout=60)
+        if rc != 0 or "ok" not in out:
+            return {"what": "corpus/api/api_complete.cpp (%s) exits %s" % (what, rc), "output": out[-400:]}
+        return None
+    with ThreadPoolExecutor(max_workers=8) as ex:
+        res = list(ex.map(one, jobs))
+    return len(jobs), [r for r in res if r]
+
 def join_check():
     """re-runs the repo's own tools/join.py on a scratch copy, byte-compares with include/ffsm2/machine.hpp"""
     d = tempfile.mkdtemp(prefix="ffsm2_join_", dir="/var/tmp")
